@@ -59,6 +59,15 @@ def _LT(a, b):
 
 
 class _Tolerant(ast.NodeTransformer):
+    def visit_Call(self, node):
+        self.generic_visit(node)
+        # lazy readings of the spec connectives (the guarded side may index out of range)
+        if isinstance(node.func, ast.Name) and node.func.id == "implies" and len(node.args) == 2:
+            return ast.BoolOp(op=ast.Or(), values=[ast.UnaryOp(op=ast.Not(), operand=node.args[0]), node.args[1]])
+        if isinstance(node.func, ast.Name) and node.func.id == "ite" and len(node.args) == 3:
+            return ast.IfExp(test=node.args[0], body=node.args[1], orelse=node.args[2])
+        return node
+
     def visit_Compare(self, node):
         self.generic_visit(node)
         parts = []
@@ -166,6 +175,11 @@ def eval_unit_once(u, ns0, args, labels=None):
     gd = u.opts.get("ghost_defs") or {}
     for k, t in gd.items():
         ns[k] = eval(t, ns)
+    if rt.get("env"):
+        try:
+            ns.update(rt["env"](args, None, ns))
+        except Exception:
+            pass
     pre_ok = True
     for label, text in u.requires:
         if text in rt.get("skip_requires", ()):  # quantified / ghost-only clauses
@@ -203,19 +217,23 @@ def eval_unit_once(u, ns0, args, labels=None):
     if rt.get("env"):
         ns.update(rt["env"](args, result, ns))
     Tol.scale = float(rt["scale"](args, result)) if rt.get("scale") else 0.0
+    envs = list(rt["foreach"](args, result, ns)) if rt.get("foreach") else [{}]
     for label, text in u.ensures:
         if labels is not None and label not in labels:
             continue
         if label in rt.get("skip_ensures", ()):
             continue
-        try:
-            ok = bool(eval(compile_clause(text), ns))
-            detail = None if ok else "clause evaluates to False"
-        except Exception as e:
-            ok = False
-            detail = "clause raised " + repr(e)[:200]
-        if not ok:
-            failed.append((label, detail))
+        for extra in envs:
+            ns.update(extra)
+            try:
+                ok = bool(eval(compile_clause(text), ns))
+                detail = None if ok else "clause evaluates to False" + (f" at {extra}" if extra else "")
+            except Exception as e:
+                ok = False
+                detail = "clause raised " + repr(e)[:200] + (f" at {extra}" if extra else "")
+            if not ok:
+                failed.append((label, detail))
+                break
     return failed, {"result": summarize(result)}
 
 
